@@ -486,8 +486,27 @@ func (p *Producer) opGasTransfer() *transaction.Transaction {
 	default:
 		to = p.Users[p.R.Intn(len(p.Users))].Hash()
 	}
-	amt := []int64{0, 1, 1000, 1_0000_0000, 3_1234_5678}[p.R.Intn(5)]
+	amt := p.amount(50_0000_0000)
 	return p.Call("gas-transfer", []neotest.Signer{u.S}, p.GasH, "transfer", u.Hash(), to, amt, nil)
+}
+
+// amount returns a varied amount in [0, max]: zero, one, round and odd
+// values, small and large.
+func (p *Producer) amount(max int64) int64 {
+	switch p.R.Intn(7) {
+	case 0:
+		return 0
+	case 1:
+		return 1
+	case 2:
+		return int64(p.R.Intn(2000))
+	case 3:
+		return 1_0000_0000
+	case 4:
+		return max
+	default:
+		return p.R.Int64N(max + 1)
+	}
 }
 
 func (p *Producer) opNeoTransfer() *transaction.Transaction {
@@ -763,7 +782,7 @@ func (p *Producer) opNotary() *transaction.Transaction {
 		if p.R.Intn(3) == 0 {
 			to = p.Users[p.R.Intn(len(p.Users))].Hash()
 		}
-		return p.Call("notary-deposit", []neotest.Signer{u.S}, p.GasH, "transfer", u.Hash(), p.NotaryH, int64((1+p.R.Intn(5))*1_0000_0000), []any{to, int64(h) + int64(2+p.R.Intn(8))})
+		return p.Call("notary-deposit", []neotest.Signer{u.S}, p.GasH, "transfer", u.Hash(), p.NotaryH, 2_0000_0000+p.amount(5_0000_0000), []any{to, int64(h) + int64(2+p.R.Intn(8))})
 	case 2:
 		return p.Call("notary-lock", []neotest.Signer{u.S}, p.NotaryH, "lockDepositUntil", u.Hash(), int64(h)+int64(2+p.R.Intn(20)))
 	default:
